@@ -57,6 +57,21 @@ def run(W, chk):
     # ---- one reward computation per LP denom: the denoms iterated are de-duplicated (no epoch paid twice)
     uniq_denoms(chk, A, "Claim")
 
+    # ---- a user's weight for epoch e comes only from the snapshot keyed (user, lp, e) or is carried from zero
+    H = W.run_fn("farm_manager::farm::commands::compute_address_weights")
+    rd = [e for e in H.reads() if e.extra.get("item") == "LP_WEIGHT_HISTORY"]
+    okr = bool(rd)
+    for e in rd:
+        k = e.extra.get("key", EMPTY)
+        k2 = {o: ops for (o, ops) in flat_atoms(vfield(k, "2"))}
+        okr = okr and e.extra.get("sop") == "may_load" and exact_origins(vfield(k, "0")) == {"address"} and \
+            exact_origins(vfield(k, "1")) == {"lp_asset_denom"} and bool(k2) and all("range" in ops for o, ops in k2.items() if not o.startswith("Const("))
+    els = vfield(H.ret if H.ret is not None else EMPTY, "[*]")
+    src = {o for o in all_origins(els)}
+    chk.expect(okr and src == {"Store(LP_WEIGHT_HISTORY)", "Const(0)"}, "PROV-user-weight-source", "compute_address_weights",
+               "weights are the snapshots keyed by the loop epoch, carried forward from zero",
+               "user weights come from %s via %s" % (sorted(src), [(e.extra.get("sop"), show(e.extra.get("key", EMPTY))[:120]) for e in rd]), H.entry)
+
     # ---- window cuts
     ge_last = PredTrue("until >= last_claimed", lambda pn, pa: pn == "ge" and origin_match(pa[0], r"^(Query\(CurrentEpoch\)\.id|msg\.Claim\.until_epoch)$")
                        and origin_match(pa[1], r"^Store\(LAST_CLAIMED_EPOCH\)$"))
